@@ -312,6 +312,8 @@ func (x *Exec) verifyRoot() {
 		for _, m := range ct.Modifies {
 			v := sc.Eval(m.Expr)
 			reg, _ := x.regionOf(v)
+			reg = x.S.Define("modreg", "Int", reg)
+			x.modRegs = append(x.modRegs, reg)
 			parts = append(parts, "(not (= "+x.rf+" "+reg+"))")
 		}
 		x.assume(st, And(parts...))
@@ -351,6 +353,10 @@ func (x *Exec) verifyRoot() {
 		}
 		bindResults(post.vars, fn, res)
 		for j, cl := range ct.Ensures {
+			if ct.AssumeInv && strings.HasPrefix(cl.Name, "typeinv-") {
+				x.note("type invariant of the result of " + x.rootKey + " is assumed, not proved (assumeinv)")
+				continue
+			}
 			g := x.evalClause(post, cl)
 			x.emitNamed(out, fmt.Sprintf("post#%s", clauseLabel(cl, j)), "post", nil, fn.Pos(), g, "postcondition: "+cl.Src)
 		}
@@ -554,5 +560,106 @@ func (x *Exec) havocGhosts(st *State, ct *Contract) {
 		}
 		x.ghostSorts[name] = sort
 		st.ghost[name] = x.S.Const("g_"+name+"_", sort)
+	}
+}
+
+// ApplySweepsAndTypeInvs creates the automatic contracts requested by sweep
+// directives and adds the type invariants as pre/postconditions of every
+// contract.
+func (p *Program) ApplySweepsAndTypeInvs() {
+	for _, sw := range p.DB.Sweeps {
+		for _, key := range p.FuncsInFiles(sw.Pattern) {
+			if !strings.HasPrefix(key, sw.Pkg+".") {
+				continue
+			}
+			skip := false
+			for _, ex := range sw.Exclude {
+				if strings.HasSuffix(key, "."+ex) || strings.HasSuffix(key, ")."+ex) {
+					skip = true
+				}
+			}
+			if skip {
+				continue
+			}
+			if ct, ok := p.DB.Contracts[key]; ok {
+				// explicit contract: make sure it serves the sweep's properties too
+				for _, pr := range sw.Props {
+					has := false
+					for _, q := range ct.Props {
+						if q == pr {
+							has = true
+						}
+					}
+					if !has {
+						ct.Props = append(append([]string{}, ct.Props...), pr)
+					}
+				}
+				continue
+			}
+			p.DB.Contracts[key] = &Contract{Key: key, Pkg: sw.Pkg, Loops: map[int]*LoopSpec{}, Props: sw.Props, Auto: true, File: "sweep " + sw.Pattern}
+		}
+	}
+	if len(p.DB.TypeInvs) == 0 {
+		return
+	}
+	for key, ct := range p.DB.Contracts {
+		if ct.NoTypeInv {
+			continue
+		}
+		fn := p.FindFunc(key)
+		if fn == nil {
+			continue
+		}
+		inv := func(t types.Type) string {
+			n, ok := t.(*types.Named)
+			if !ok {
+				return ""
+			}
+			for _, ti := range p.DB.TypeInvs {
+				if n.Obj().Name() == ti.Type && n.Obj().Pkg() != nil && n.Obj().Pkg().Name() == ti.Pkg {
+					return ti.Pred
+				}
+			}
+			return ""
+		}
+		var pre, post []*Clause
+		elemInv := func(t types.Type) string {
+			if sl, ok := t.Underlying().(*types.Slice); ok {
+				if _, isNamed := t.(*types.Named); !isNamed {
+					return inv(sl.Elem())
+				}
+			}
+			return ""
+		}
+		mkAll := func(pn, name string) SExpr {
+			// forall k :: 0 <= k && k < len(name) ==> pn(name[k])
+			k := &SIdent{"k"}
+			rng := &SBin{"&&", &SBin{"<=", &SNum{"0"}, k}, &SBin{"<", k, &SCall{Fn: "len", Args: []SExpr{&SIdent{name}}}}}
+			return &SQuant{Forall: true, Vars: []string{"k"}, Types: []string{""}, Body: &SBin{"==>", rng, &SCall{Fn: pn, Args: []SExpr{&SIndex{&SIdent{name}, k}}}}}
+		}
+		for _, prm := range fn.Params {
+			if prm.Name() == "_" {
+				continue
+			}
+			if pn := inv(prm.Type()); pn != "" {
+				pre = append(pre, &Clause{Expr: &SCall{Fn: pn, Args: []SExpr{&SIdent{prm.Name()}}}, Src: pn + "(" + prm.Name() + ")", Name: "typeinv-" + prm.Name(), File: ct.File, Line: ct.Line})
+			} else if pn := elemInv(prm.Type()); pn != "" {
+				pre = append(pre, &Clause{Expr: mkAll(pn, prm.Name()), Src: "forall k :: " + pn + "(" + prm.Name() + "[k])", Name: "typeinv-" + prm.Name(), File: ct.File, Line: ct.Line})
+			}
+		}
+		res := fn.Signature.Results()
+		for i := 0; i < res.Len(); i++ {
+			rn := "result"
+			if res.Len() > 1 {
+				rn = fmt.Sprintf("result%d", i)
+			}
+			if pn := inv(res.At(i).Type()); pn != "" {
+				post = append(post, &Clause{Expr: &SCall{Fn: pn, Args: []SExpr{&SIdent{rn}}}, Src: pn + "(" + rn + ")", Name: "typeinv-" + rn, File: ct.File, Line: ct.Line})
+			} else if pn := elemInv(res.At(i).Type()); pn != "" {
+				post = append(post, &Clause{Expr: mkAll(pn, rn), Src: "forall k :: " + pn + "(" + rn + "[k])", Name: "typeinv-" + rn, File: ct.File, Line: ct.Line})
+			}
+		}
+		ct.Requires = append(pre, ct.Requires...)
+		ct.Ensures = append(ct.Ensures, post...)
 	}
 }
